@@ -122,3 +122,99 @@ contract(FC, "Quotient.get_terms", props=["C10"], lenient=True, asserts="assume"
          pure_calls=["_parent_param_map"],
          provider_requires={"terms": _QDISC},
          notes="reverse of a product: provider j (j>=1) is original child j-1 (j<=idx) or j (j>idx); 0 the original parent")
+
+# ------------------------------------------------------------------ C08: threshold walks (every randint outcome)
+from .common import CombObj
+provider("recs", args=[], arg_names=[], returns=Int, ensures=["result >= 0"])
+provider("samplers", args=[], arg_names=[], returns=CombObj)
+
+contract(FD, "DisjointUnion.random_sample_sub_objects", props=["C08"], lenient=True,
+         params={"self": Obj("DisjointUnion"), "parent_count": Int, "subsamplers": Seq(Fun("samplers")),
+                 "subrecs": Seq(Fun("recs")), "n": Int},
+         returns=Seq(Opt(CombObj)),
+         requires=["parent_count >= 1", "len(subsamplers) == len(subrecs)",
+                   "forall(lambda j: implies(0 <= j and j < len(subrecs), subrecs[j] == j and subsamplers[j] == j))"],
+         pure_calls=["get_extra_parameters"],
+         may_raise=["RuntimeError"],
+         ensures=["len(result) == len(subrecs)",
+                  # exactly one child is sampled, all other components are None
+                  "exists(lambda i: 0 <= i and i < len(result) and not is_none(result[i]) and "
+                  "forall(lambda j: implies(0 <= j and j < len(result) and j != i, is_none(result[j]))))"],
+         provider_requires={
+             # child idx is sampled only if the random threshold falls into its interval:
+             # (sum of the weights of the children before it) < r <= (that sum + its own weight)
+             "samplers": ["idx == _i0", 'last_arg("prov:recs", 0) == _i0', "random_choice <= total",
+                          'random_choice > total - last_result("prov:recs")'],
+             "recs": ["idx == _i0", "random_choice > total"]},
+         loops={0: dict(invariant=["random_choice > total", "total >= 0"], modifies=[],
+                        ghost_end=[])},
+         notes="for every outcome r of randint(1, parent_count)")
+
+contract(FC, "CartesianProduct.random_sample_sub_objects", props=["C08"], lenient=True, asserts="assume",
+         params={"self": Obj("CartesianProduct"), "parent_count": Int, "subsamplers": Seq(Fun("samplers")),
+                 "subrecs": Seq(Fun("recs")), "n": Int},
+         returns=Seq(CombObj),
+         requires=["parent_count >= 1", "len(subsamplers) == len(subrecs)",
+                   "forall(lambda j: implies(0 <= j and j < len(subrecs), subrecs[j] == j and subsamplers[j] == j))"],
+         pure_calls=["get_extra_parameters", "_valid_compositions"],
+         may_raise=["RuntimeError"],
+         provider_requires={
+             # the samplers run only for the composition whose interval contains the threshold:
+             # (weights of earlier compositions) < r <= (that sum + product of the children's counts)
+             "samplers": ["random_choice <= total", "random_choice > total - tmp", "idx == _ci"],
+             "recs": ["random_choice > total", "idx == _i1"]},
+         loops={0: dict(invariant=["random_choice > total", "total >= 0"], modifies=[]),
+                1: dict(invariant=["tmp >= 0", "random_choice > total", "total >= 0"], modifies=[])},
+         notes="for every outcome r of randint(1, parent_count)")
+
+# ------------------------------------------------------------------ C09: parameter maps (pure integer functions)
+FBASE = "comb_spec_searcher/strategies/constructor/base.py"
+_PM_REQ = ["len(child_pos_to_parent_pos) == len(param)", "num_parent_params >= 0",
+           "forall(lambda pos, j: implies(0 <= pos and pos < len(param) and 0 <= j and j < len(child_pos_to_parent_pos[pos]), "
+           "0 <= child_pos_to_parent_pos[pos][j] and child_pos_to_parent_pos[pos][j] < num_parent_params))"]
+# by construction (extra_parameters is a dictionary parent -> child) every parent position is listed at most once
+_PM_UNIQ = ("forall(lambda p1, j1, p2, j2: implies(0 <= p1 and p1 < len(param) and 0 <= j1 and j1 < len(child_pos_to_parent_pos[p1]) "
+            "and 0 <= p2 and p2 < len(param) and 0 <= j2 and j2 < len(child_pos_to_parent_pos[p2]) and "
+            "child_pos_to_parent_pos[p1][j1] == child_pos_to_parent_pos[p2][j2], p1 == p2 and j1 == j2))")
+_HIT = "child_pos_to_parent_pos[{pos}][{j}]"
+
+
+def _pm_loops(value_of):
+    """Loop invariants shared by the three param_map variants; value_of(x) wraps the stored value (Optional or not)."""
+    done_rows = ("forall(lambda q, j: implies(0 <= q and q < _i0 and 0 <= j and j < len(child_pos_to_parent_pos[q]), "
+                 + value_of("new_params[child_pos_to_parent_pos[q][j]]", "param[q]") + "))")
+    untouched0 = ("forall(lambda p: implies(0 <= p and p < num_parent_params and "
+                  "forall(lambda q, j: implies(0 <= q and q < _i0 and 0 <= j and j < len(child_pos_to_parent_pos[q]), "
+                  "child_pos_to_parent_pos[q][j] != p)), UNTOUCHED))")
+    cur_row = ("forall(lambda j: implies(0 <= j and j < _i1, " + value_of("new_params[parent_pos[j]]", "value") + "))")
+    untouched1 = ("forall(lambda p: implies(0 <= p and p < num_parent_params and "
+                  "forall(lambda q, j: implies(0 <= q and q < _i0 and 0 <= j and j < len(child_pos_to_parent_pos[q]), "
+                  "child_pos_to_parent_pos[q][j] != p)) and forall(lambda j: implies(0 <= j and j < _i1, parent_pos[j] != p)), UNTOUCHED))")
+    return done_rows, untouched0, cur_row, untouched1
+
+
+def _param_map_contract(file, qual, value_of, untouched, post_untouched, optional, props):
+    done_rows, untouched0, cur_row, untouched1 = _pm_loops(value_of)
+    inv_len = "len(new_params) == num_parent_params"
+    contract(file, qual, props=props,
+             params={"child_pos_to_parent_pos": Seq(Seq(Int)), "num_parent_params": Int, "param": Seq(Int)},
+             returns=Seq(Int), locals={"new_params": List(Opt(Int)) if optional else List(Int)},
+             requires=_PM_REQ + [_PM_UNIQ],
+             ensures=["len(result) == num_parent_params",
+                      "forall(lambda pos, j: implies(0 <= pos and pos < len(param) and 0 <= j and "
+                      "j < len(child_pos_to_parent_pos[pos]), result[child_pos_to_parent_pos[pos][j]] == param[pos]))",
+                      "forall(lambda p: implies(0 <= p and p < num_parent_params and "
+                      "forall(lambda q, j: implies(0 <= q and q < len(param) and 0 <= j and j < len(child_pos_to_parent_pos[q]), "
+                      "child_pos_to_parent_pos[q][j] != p)), " + post_untouched + "))"],
+             loops={0: dict(invariant=[inv_len, done_rows, untouched0.replace("UNTOUCHED", untouched)], modifies=["*new_params"]),
+                    1: dict(invariant=[inv_len, "parent_pos == child_pos_to_parent_pos[_i0]", "value == param[_i0]",
+                                       done_rows, cur_row, untouched1.replace("UNTOUCHED", untouched)],
+                            modifies=["*new_params"])},
+             modifies=[],
+             notes="parent position p receives the value of the child position mapped to it; unmapped positions get 0")
+
+
+_param_map_contract(FBASE, "Constructor.param_map", lambda x, v: f"{x} == {v}", "new_params[p] == 0", "result[p] == 0",
+                    False, ["C09"])
+_param_map_contract(FD, "DisjointUnion.param_map", lambda x, v: f"(not is_none({x}) and val({x}) == {v})",
+                    "is_none(new_params[p])", "result[p] == 0", True, ["C09"])
